@@ -276,6 +276,72 @@ class Session:
     def getattr(self, obj, name):
         return self.I.getattr(obj, name)
 
+    def use_contract(self, qualname, summary):
+        """modularity: calls of `qualname` are replaced by its contract summary
+        summary(I, sfunc, args, kwargs): check requires (obligations), havoc modifies, assume ensures"""
+        self.find(qualname)
+        self.I.summaries[qualname] = summary
+        self.ctx.ghost.setdefault("contracts_used", []).append(qualname)
+
+    def on_call(self, qualname, fn):
+        """run fn(record of arguments) at every call of `qualname` (used to state ASSUMED lemmas at a call
+        boundary; every use is reported as an assumption)"""
+        self.find(qualname)
+
+        def hook(I, f, args, kwargs):
+            if f.qualname != qualname:
+                return
+            names = [a.arg for a in f.node.args.args]
+            rec = dict(zip(names, args))
+            rec.update(kwargs)
+            fn(rec)
+
+        self.I.call_hooks.append(hook)
+        self.ctx.ghost.setdefault("assumed_lemmas", []).append(qualname)
+
+    def probe_returns(self, qualname):
+        """ghost observation of the values returned by every call of the repo function `qualname`"""
+        self.find(qualname)
+        log = []
+        I = self.I
+        orig = I.call_func
+
+        def wrapped(fn, args, kwargs):
+            r = orig(fn, args, kwargs)
+            if fn.qualname == qualname and fn.closure is None:
+                log.append(r.val if isinstance(r, Tensor) else r)
+            return r
+
+        I.call_func = wrapped
+        return log
+
+    def lemma_schema(self, label, make_vars, statement):
+        """prove the closed statement  forall vars: statement(vars)  once (fresh variables), and return an
+        instantiation function for use as a hypothesis elsewhere"""
+        vs = make_vars()
+        self.ctx.oblige(f"{self.prefix}/lemma:{label}", statement(*vs), (), "lemma", pure=True)
+        return lambda *terms: statement(*terms)
+
+    def probe(self, qualname):
+        """ghost observation: record the arguments (tensor values snapshotted at call time) of every call of
+        the repo function `qualname` executed from now on"""
+        import ast as _ast
+
+        self.find(qualname)
+        log = []
+
+        def hook(I, fn, args, kwargs):
+            if fn.qualname != qualname:
+                return
+            names = [a.arg for a in fn.node.args.args]
+            rec = {}
+            for nm, v in list(zip(names, args)) + list(kwargs.items()):
+                rec[nm] = v.val if isinstance(v, Tensor) else v
+            log.append(rec)
+
+        self.I.call_hooks.append(hook)
+        return log
+
     def outcome(self, thunk):
         """run thunk; returns ('ok', value) or ('raise', kind)"""
         from .interp import RaisedEx
@@ -351,13 +417,22 @@ class Session:
                 out.append(fn(list(combo)))
         return out
 
-    def forall(self, label, tensor, pred, kind="post", extra_hyps=()):
-        """obligation: for every index of `tensor`, pred(idx) holds (generic index = Skolem constants)"""
+    def forall(self, label, tensor, pred, kind="post", extra_hyps=(), cases=None):
+        """obligation: for every index of `tensor`, pred(idx) holds (generic index = Skolem constants).
+        cases(idx) -> list of conditions: the obligation is split into one VC per case (proof hint) plus
+        an exhaustiveness VC."""
         v = lift(tensor)
         idx, hyps = v.generic_index("q")
         goal = pred(idx)
         inst = self.instances(v.shape, idx)
-        self.ensure(label, goal, list(hyps) + inst + list(extra_hyps), kind)
+        base = list(hyps) + inst + list(extra_hyps(idx) if callable(extra_hyps) else extra_hyps)
+        if cases is None:
+            self.ensure(label, goal, base, kind)
+            return
+        cs = cases(idx)
+        for n, c in enumerate(cs):
+            self.ensure(f"{label}#case{n}", goal, base + [c], kind)
+        self.ensure(f"{label}#cases-exhaustive", z3.Or(cs), base, kind)
 
     def cover(self, label, cond=True):
         """reachability check: pc /\\ cond must be satisfiable (guards against vacuous preconditions)"""
